@@ -453,6 +453,102 @@ theorem Fwd.batch_concat_spec {α} {xs : List (Tensor α)} {y : Tensor α} {raw 
     simp only [bstartOf, ← List.map_take, List.map_map, Function.comp_def]
     congr 1; ring
 
+/-- `concat(xs, dim)`; `dim ≥ 8` is rejected; operands with minibatch size 1 are shared -/
+theorem Fwd.concat_spec {α} {xs : List (Tensor α)} {y : Tensor α} {dim : Nat} {raw : Nat → α}
+    (hxs : ∀ x ∈ xs, WF x.shape) (h : concatFw xs dim raw = .ok y) :
+    ∃ x0 rest, xs = x0 :: rest ∧ dim < 8 ∧
+      (∀ i, y.shape.get i = if i = dim then (xs.map (·.shape.get dim)).sum else x0.shape.get i) ∧
+      (∀ x ∈ xs, (∀ i, i ≠ dim → x.shape.get i = x0.shape.get i) ∧ (x.shape.batch = 1 ∨ x.shape.batch = y.shape.batch)) ∧
+      IsConcat (lo y.shape dim) (up y.shape dim) y.shape.batch
+        (xs.map fun x => ⟨at4 (lo y.shape dim) (x.shape.get dim) (up y.shape dim) x.data, x.shape.get dim, x.shape.batch⟩)
+        (at4 (lo y.shape dim) (y.shape.get dim) (up y.shape dim) y.data) := by
+  unfold concatFw at h
+  split at h
+  · cases h
+  cases hc : checkAll xs with
+  | error e => simp [hc, bind, Except.bind] at h
+  | ok u =>
+  cases hF : Front.concatFw (xs.map (·.shape)) dim with
+  | error e => simp [hc, hF, bind, Except.bind] at h
+  | ok p =>
+  obtain ⟨ys, ms⟩ := p
+  cases hR : runSetMany ys (ms.zip xs) raw with
+  | error e => simp [hc, hF, hR, bind, Except.bind] at h
+  | ok d =>
+  simp only [hc, hF, hR, bind, Except.bind] at h
+  split at h
+  · cases h
+  simp only [pure, Except.pure, Except.ok.injEq] at h
+  subst h
+  have hsh : ∀ s ∈ xs.map (·.shape), WF s := by
+    intro s hs
+    obtain ⟨x, hx, rfl⟩ := List.mem_map.mp hs
+    exact hxs x hx
+  obtain ⟨s0, srest, hcons, h8, hy, hyg, hall, hms⟩ := Front.concatFw_plan hsh hF
+  cases xs with
+  | nil => simp at hcons
+  | cons x0 rest =>
+  simp only [List.map_cons, List.cons.injEq] at hcons
+  obtain ⟨rfl, rfl⟩ := hcons
+  set xs := x0 :: rest with hxsdef
+  have hL := lo_pos hy dim
+  refine ⟨x0, rest, rfl, h8, ?_, ?_, ?_⟩
+  · intro i; rw [hyg i]; simp [List.map_map, Function.comp_def]
+  · intro x hx; exact hall x.shape (List.mem_map_of_mem hx)
+  · intro m hm a k c b ha hk hc' hb'
+    simp only [List.length_map] at hm
+    simp only [List.getElem_map] at hk ⊢
+    have hlen : ms.length = xs.length := by rw [hms, Front.concatPlan_length]; simp
+    have hmz : m < (ms.zip xs).length := by simp only [List.length_zip, hlen]; omega
+    -- the entries of the plan, as numbers
+    have hentry : ∀ q (hq : q < xs.length), ∃ hq' : q < (ms.zip xs).length,
+        (ms.zip xs)[q] = (concatMoves ys.batch (lo ys dim) (lo ys dim * ys.get dim) (up ys dim)
+          (lo ys dim * ((xs.take q).map (·.shape.get dim)).sum) (xs[q].shape.get dim)
+          (if xs[q].shape.batch = 1 then 0 else 1), xs[q]) ∧
+        ((xs.take q).map (·.shape.get dim)).sum + xs[q].shape.get dim ≤ ys.get dim ∧
+        (xs[q].shape.batch = 1 ∨ xs[q].shape.batch = ys.batch) ∧ 0 < xs[q].shape.get dim := by
+      intro q hq
+      obtain ⟨hq', e, _, _, hN, hbq⟩ := Front.concatFw_entry hsh hF q (by simpa using hq)
+      have hle := take_sum_succ_le ((xs.map (·.shape)).map (·.get dim)) q (by simpa using hq)
+      simp only [List.getElem_map] at e hbq hle
+      refine ⟨by simp only [List.length_zip, hlen]; omega, ?_, ?_, hbq, (hxs _ (List.getElem_mem hq)).pos dim⟩
+      · rw [List.getElem_zip, e]
+        simp [List.map_take, List.map_map, Function.comp_def]
+      · rw [hN]
+        simpa [List.map_take, List.map_map, Function.comp_def] using hle
+    obtain ⟨_, em, hsm, hbm, hnm⟩ := hentry m hm
+    have ⟨s1, s2, s3⟩ := concat_step (B := ys.batch) (L := lo ys dim) (N := ys.get dim) (U := up ys dim)
+      (s := ((xs.take m).map (·.shape.get dim)).sum) (n := xs[m].shape.get dim) (Bp := xs[m].shape.batch)
+      ha hk hc' hb' hbm
+    have key := runSetMany_at _ hR m hmz ((b * up ys dim + c) * (lo ys dim * xs[m].shape.get dim) + (a + lo ys dim * k))
+      (by rw [em]; exact s1)
+      (by
+        intro t' h1 h2 e
+        rw [em] at e h2
+        have := (concat_didx_eq hL hnm hnm hsm hsm h2 s1 e).2 rfl rfl
+        omega)
+      (by
+        intro p' hp' hlt t' ht' e
+        have hp'' : p' < xs.length := by simp only [List.length_zip, hlen] at hp'; omega
+        obtain ⟨_, ep, hsp, _, hnp⟩ := hentry p' hp''
+        rw [em, ep] at e
+        rw [ep] at ht'
+        have hkeq := (concat_didx_eq hL hnp hnm hsp hsm ht' s1 e).1
+        have hmono := take_sum_mono (xs.map (·.shape.get dim)) hlt (by simpa using hm)
+        simp only [List.getElem_map, ← List.map_take] at hmono
+        have hk2 : ((b * up ys dim + c) * (lo ys dim * xs[m].shape.get dim) + (a + lo ys dim * k)) %
+            (lo ys dim * xs[m].shape.get dim) / lo ys dim = k := by
+          have hr : a + lo ys dim * k < lo ys dim * xs[m].shape.get dim := lt_mul_of_lt ha hk
+          rw [Nat.mul_comm (b * up ys dim + c), Nat.mul_add_mod, Nat.mod_eq_of_lt hr,
+            Nat.add_mul_div_left _ _ hL, Nat.div_eq_of_lt ha]; omega
+        rw [hk2] at hkeq
+        omega)
+    rw [em] at key
+    simp only at key
+    rw [s2, s3] at key
+    simp only [at4_eq, startOf, ← List.map_take, List.map_map, Function.comp_def, share]
+    rw [← key]
+
 /-- `copy(x)` / `Device::copy_tensor`, also for a tensor of another device -/
 theorem Fwd.copy_spec {α} {x y : Tensor α} {raw : Nat → α} (h : copyTensor x raw = .ok y) :
     x.loc ≠ .invalid ∧ y.shape = x.shape ∧ ∀ i, i < x.shape.size → y.data i = x.data i := by
